@@ -4,9 +4,13 @@ INV = ("TypeOK AcceptedNeverExceedsCap ShadowNeverRejects ShadowRecordsCrossing 
        "  BestEffortDoesNotLatch LatchedIsExhausted RefsOK PublishOnce PublishedWhenQuiescent")
 ACT = "FirstRejectionLatched ClosedLedgerRejects ClosedIsFinal NoRetainAfterPublish"
 
-def consts(procs, kinds, cap, mode, lazy, maxops, maxheld=1):
+ALL = '{"debit", "local", "retain", "finish"}'
+
+def consts(procs, kinds, cap, mode, lazy, maxops, maxheld=1, opset=ALL, atomic=False, gtbug=False):
     return ("CONSTANTS\n  Procs = %s\n  Kinds = %s\n  LKinds = {\"key\"}\n  Cap <- %s\n  Mode = \"%s\"\n  Lazy = %s\n"
-            "  MaxOps = %d\n  MaxHeld = %d\n" % (procs, kinds, cap, mode, "TRUE" if lazy else "FALSE", maxops, maxheld))
+            "  MaxOps = %d\n  MaxHeld = %d\n  OpSet = %s\n  Atomic = %s\n  GtBug = %s\n" % (
+                procs, kinds, cap, mode, "TRUE" if lazy else "FALSE", maxops, maxheld, opset,
+                "TRUE" if atomic else "FALSE", "TRUE" if gtbug else "FALSE"))
 
 def mc(name, c):
     open("MC_%s.cfg" % name, "w").write(c + "SPECIFICATION Spec\nINVARIANTS %s\nPROPERTIES %s\nCHECK_DEADLOCK FALSE\n" % (INV, ACT))
@@ -15,21 +19,32 @@ def sim(name, c):
     open("Sim_%s.cfg" % name, "w").write(c + "INIT Init\nNEXT Next\nCHECK_DEADLOCK FALSE\n")
 
 def trace(name, c):
+    # NotAccepted is listed last: its "violation" is how a fully matched trace is reported
     open("Trace_%s.cfg" % name, "w").write(
-        c + "SPECIFICATION TraceSpec\nINVARIANTS %s\nPROPERTIES %s\nPOSTCONDITION TraceAccepted\nCHECK_DEADLOCK FALSE\n" % (INV, ACT))
+        c + "SPECIFICATION TraceSpec\nINVARIANTS %s NotAccepted\nCHECK_DEADLOCK FALSE\n" % INV)
 
 K2, K1 = '{"out", "int"}', '{"out"}'
+DEBIT = '{"debit"}'
+LOCAL = '{"debit", "local"}'
+LIFE = '{"debit", "retain", "finish"}'
 for mode in ("enforce", "shadow", "off"):
-    mc("%s2" % mode.capitalize(), consts("{1, 2}", K2, "MCCap", mode, True, 3))
-    mc("%s3" % mode.capitalize(), consts("{1, 2, 3}", K1, "MCCap1", mode, True, 3))
+    M = mode.capitalize()
+    # three concurrent debitors on a cap-1 counter + local limits: the CAS loop and the latch
+    mc("%sDebit3" % M, consts("{1, 2, 3}", K1, "MCCap1", mode, True, 2, 0, DEBIT))
+    mc("%sLocal2" % M, consts("{1, 2}", K1, "MCCap1", mode, True, 2, 0, LOCAL))
+    # lifecycle: lazy pin, retain / release / finish racing debits
+    mc("%sLife2" % M, consts("{1, 2}", K1, "MCCap1", mode, True, 3, 1, LIFE))
+    # everything, two processes, two kinds (thorough)
+    mc("%sAll2" % M, consts("{1, 2}", K2, "MCCap", mode, True, 3))
+    mc("%sLife3" % M, consts("{1, 2, 3}", K1, "MCCap1", mode, True, 3, 1, LIFE))
 mc("EnforceDirect2", consts("{1, 2}", K2, "MCCap", "enforce", False, 3))
 mc("ShadowDirect2", consts("{1, 2}", K2, "MCCap", "shadow", False, 3))
-mc("Enforce3x4", consts("{1, 2, 3}", K2, "MCCap", "enforce", True, 4, 2))
-mc("Shadow3x4", consts("{1, 2, 3}", K2, "MCCap", "shadow", True, 4, 2))
+mc("NegGt", consts("{1, 2}", K1, "MCCap1", "enforce", True, 2, 0, DEBIT, gtbug=True))
+# sequential call orders for the API replay; concurrent histories for the trace validation
 for mode in ("enforce", "shadow", "off"):
-    sim(mode.capitalize(), consts("{1, 2, 3}", K2, "MCCap", mode, True, 5, 2))
+    sim(mode.capitalize(), consts("{1, 2, 3}", K2, "MCCap", mode, True, 6, 2, atomic=True))
     trace(mode.capitalize(), consts("{1, 2, 3, 4}", K2, "MCCap", mode, True, 1000, 1000))
-sim("EnforceDirect", consts("{1, 2, 3}", K2, "MCCap", "enforce", False, 5, 2))
-sim("ShadowDirect", consts("{1, 2, 3}", K2, "MCCap", "shadow", False, 5, 2))
+sim("EnforceDirect", consts("{1, 2, 3}", K2, "MCCap", "enforce", False, 6, 2, atomic=True))
+sim("ShadowDirect", consts("{1, 2, 3}", K2, "MCCap", "shadow", False, 6, 2, atomic=True))
 trace("EnforceDirect", consts("{1, 2, 3, 4}", K2, "MCCap", "enforce", False, 1000, 1000))
 trace("ShadowDirect", consts("{1, 2, 3, 4}", K2, "MCCap", "shadow", False, 1000, 1000))
